@@ -448,6 +448,8 @@ class Interp:
             return tuple(out)
         if isinstance(e, ast.List):
             return [self.ev(x, env) for x in e.elts]
+        if isinstance(e, ast.Set):
+            return {self.ev(x, env) for x in e.elts}
         if isinstance(e, ast.Dict):
             d = {}
             for k, v in zip(e.keys, e.values):
